@@ -25,7 +25,7 @@ def _type_index():
     # shift it, so it is read from the registry list rather than hard-coded)
     from gym_gridverse.grid_object import grid_object_registry
 
-    return {name: i for i, name in enumerate(grid_object_registry.names())}
+    return {t.__name__: i for i, t in enumerate(list(grid_object_registry))}
 
 
 TYPE_INDEX = _type_index()
@@ -169,6 +169,36 @@ def judge_space(kind, shape, types, colours, repname, devs):
     return n, None, None
 
 
+def judge_registry_reads():
+    """reading the registry (names(), from_name(), iteration, membership) is not an update: the type indices - hence the
+    default encoding of every object - are the same before and after, and a representation gives the same arrays"""
+    from gym_gridverse.grid_object import grid_object_registry
+
+    types = ('Wall', 'Floor', 'Exit', 'Door', 'Key', 'Beacon', 'Telepod', 'MovingObstacle')
+    sp = P.state_space((2, 3), types, (1, 4))
+    rep = P.make_state_representation('default', sp)
+    members = list(P.state_members((2, 3), P.objects_of(types, (1, 4))))[::7]
+    before_idx = {t.__name__: t.type_index() for t in list(grid_object_registry)}
+    before = [image(rep.convert(mkstate(m))) for m in members]
+    n = len(members)
+    reads = [('names()', lambda: grid_object_registry.names()), ('names() again', lambda: grid_object_registry.names()),
+             ('from_name', lambda: [grid_object_registry.from_name(nm) for nm in before_idx]),
+             ('iteration', lambda: [t for t in grid_object_registry]), ('sorted(registry)', lambda: sorted(grid_object_registry, key=lambda t: t.__name__)),
+             ('len / membership', lambda: (len(grid_object_registry), list(grid_object_registry)[0] in grid_object_registry))]
+    for what, read in reads:
+        read()
+        after_idx = {t.__name__: t.type_index() for t in list(grid_object_registry)}
+        if after_idx != before_idx:
+            moved = sorted(k for k in before_idx if before_idx[k] != after_idx.get(k))
+            return n, f'reading the grid-object registry ({what}) changed the type indices of {moved[:6]}'
+        rep2 = P.make_state_representation('default', sp)
+        for m, img in zip(members, before):
+            n += 2
+            if image(rep.convert(mkstate(m))) != img or image(rep2.convert(mkstate(m))) != img:
+                return n, f'after reading the grid-object registry ({what}) equal states get a different default representation'
+    return n, None
+
+
 def _work(job):
     n = spaces = 0
     fails = []
@@ -189,6 +219,8 @@ def _work(job):
 
 
 def replay(case):
+    if case['kind'] == 'registry_reads':
+        return judge_registry_reads()[1]
     try:
         return judge_space(case['skind'], tuple(case['shape']), tuple(case['types']), tuple(case['colours']), case['rep'], case['devs'])[1]
     except Exception as e:  # noqa: BLE001
@@ -204,6 +236,8 @@ def spaces(tier):
         subsets += [c for c in itertools.combinations(names, 3)] + [tuple(names), tuple(t for t in names if t != 'Box')]
     else:
         subsets += [tuple(names), tuple(t for t in names if t != 'Box')]
+    # many user-defined types registered after the library's: type indices beyond the built-in range
+    subsets += [('Floor', 'Door') + tuple(P.PLAIN_NAMES), ('Wall', 'Floor', 'Exit', 'Door', 'Key', 'Beacon', 'Telepod') + tuple(P.PLAIN_NAMES)]
     subsets += [('Floor', 'Key', 'VerifSubKey'), ('Wall', 'Floor', 'Exit', 'Door', 'Key', 'VerifSubKey'), ('Wall', 'Floor', 'Door', 'Key', 'Hidden'), ('NoneGridObject', 'Floor', 'Exit'), ('Floor', 'Wall', 'Floor', 'Key'),
                 ('Hidden', 'NoneGridObject', 'Floor', 'Door')]
     for ts in subsets:
@@ -220,6 +254,11 @@ def spaces(tier):
 
 
 def run(rep, tier, seed):
+    # first, before anything else has run in this process: reads of the registry
+    rn, rm = judge_registry_reads()
+    if rm:
+        rep.violation({'kind': 'registry_reads', 'sig': {'part': 'registry_reads'}}, rm)
+    rep.part('registry_reads', conversions=rn)
     sp = spaces(tier)
     sp.sort(key=lambda s: -(len(P.objects_of(s[2], s[3])) ** s[4]) * s[1][0] * s[1][1])
     jobs = [sp[i::256] for i in range(256)]
